@@ -669,7 +669,7 @@ func (c *evalCtx) isNone(o SV) string {
 		case s == "Iface":
 			return eq(o.T, "iface_nil")
 		case s == "Bytes":
-			return app("bnil", o.T)
+			return eq(o.T, "bempty")
 		case s == "Int":
 			return eq(o.T, "0")
 		}
@@ -773,6 +773,21 @@ func (c *evalCtx) call(n *Node) SV {
 	case "ite":
 		cc, a, b := c.eval(n.Args[0]), c.eval(n.Args[1]), c.eval(n.Args[2])
 		return SV{T: ite(cc.T, a.T, b.T), Ty: a.Ty, Opt: a.Opt, Sort: a.Sort}
+	case "isType":
+		a := c.eval(n.Args[0])
+		if n.Args[1].Kind != "str" {
+			panic("isType(x, \"type string\")")
+		}
+		id, ok := typeIDs[n.Args[1].Name]
+		if !ok {
+			id = len(typeIDs) + 1
+			typeIDs[n.Args[1].Name] = id
+		}
+		return SV{T: eq(app("itype", a.T), fmt.Sprint(id)), Sort: "Bool"}
+	case "implements":
+		a := c.eval(n.Args[0])
+		f := e.DeclFun("implements."+sanitize(n.Args[1].Name), []string{"Int"}, "Bool")
+		return SV{T: app(f, app("itype", a.T)), Sort: "Bool"}
 	case "unixsec":
 		a := c.eval(n.Args[0])
 		return SV{T: app("div", a.T, "1000000000"), Sort: "Int"}
@@ -797,6 +812,22 @@ func (c *evalCtx) call(n *Node) SV {
 			e.GroundBytes(t)
 		}
 		return SV{T: t, Sort: sig.Ret, Ty: sig.RetT}
+	}
+	if ret, ok := e.funRet[n.Name]; ok {
+		// an uninterpreted function declared by an assumed contract (intrinsic)
+		return SV{T: app(n.Name, args...), Sort: ret}
+	}
+	if te, ok := c.env.(interface {
+		TypedUF(name string) ([]types.Type, types.Type, bool)
+	}); ok {
+		if ats, rt, ok := te.TypedUF(n.Name); ok && len(ats) == len(args) {
+			var ss []string
+			for _, at := range ats {
+				ss = append(ss, e.Sort(at))
+			}
+			e.DeclFun(n.Name, ss, e.Sort(rt))
+			return SV{T: app(n.Name, args...), Ty: rt}
+		}
 	}
 	panic(fmt.Sprintf("unknown spec function %q", n.Name))
 }
